@@ -36,6 +36,7 @@ ASSUMPTIONS = [
     "error kinds/messages are not compared (both sides must fail, or both succeed with the same value; all NaNs identified)",
     "table and set operators (levels l6, l7) are covered by the theorems and the translator tie, not by generated programs",
 ]
+STALL = 240.0   # seconds without output before a harness process counts as hung (the parser is slow on nested parentheses)
 TRIVIAL_TAGS = ["error", "value-same", "value-single", "agree-same", "agree-single"]
 
 ARITH = ["add", "subtract", "multiply", "divide", "modulus", "power"]
